@@ -216,8 +216,9 @@ func verifSchedRun(spec *VerifSchedSpec) (res *VerifSchedResult) {
 			res.LastWaitLine = string(line)
 			relaxed := sh.Hint.Text() != "" || string(sh.Keymap.Local()) != ""
 			v := vt.CheckInput(term, promptLast, line, c.Pos(), relaxed, 5)
-			if v != "" && vt.CheckInput(term2, promptLast, line, c.Pos(), relaxed, 5) == "" {
-				v = ""
+			if v == "" {
+				// right under both erase-at-margin behaviours, as in the session engine
+				v = vt.CheckInput(term2, promptLast, line, c.Pos(), relaxed, 5)
 			}
 			// what a completed Printf wrote must be on the screen as it was written: one row above
 			// the input holding exactly the message (12 rows: nothing scrolls away in these scripts)
